@@ -470,6 +470,18 @@ func c17RefBody(draw func(int) int) []byte {
 	return body
 }
 
+// leaves: not-a-number and infinities in both float widths, negative zero, the extremes of the integer types, text
+// that is not UTF-8 or not normalized, text in a bin item, nil, booleans, extension items of other types than the one
+// that means "unknown", an unknown with an empty body, a timestamp extension
+var c17Leaves = [][]byte{
+	{0xca, 0x7f, 0xc0, 0x00, 0x00}, {0xcb, 0x7f, 0xf8, 0, 0, 0, 0, 0, 1}, {0xca, 0x7f, 0x80, 0x00, 0x00}, {0xca, 0xff, 0x80, 0x00, 0x00},
+	{0xcb, 0x7f, 0xf0, 0, 0, 0, 0, 0, 0}, {0xcb, 0xff, 0xf0, 0, 0, 0, 0, 0, 0}, {0xcb, 0x80, 0, 0, 0, 0, 0, 0, 0}, {0xca, 0x80, 0x00, 0x00, 0x00},
+	{0xcf, 0xff, 0xff, 0xff, 0xff, 0xff, 0xff, 0xff, 0xff}, {0xd3, 0x80, 0, 0, 0, 0, 0, 0, 0}, {0xcb, 0x00, 0, 0, 0, 0, 0, 0, 1}, {0xcb, 0x7f, 0xef, 0xff, 0xff, 0xff, 0xff, 0xff, 0xff},
+	{0xa2, 0xff, 0xfe}, {0xa3, 0xed, 0xa0, 0x80}, {0xa3, 'e', 0xcc, 0x81}, {0xa3, 0xe1, 0x84, 0x80}, {0xc4, 0x01, 'a'}, {0xc4, 0x00}, {0xd9, 0x01, 'a'}, {0xa0},
+	{0xc0}, {0xc2}, {0xc3}, {0xc1},
+	{0xd4, 0x00, 0x00}, {0xd4, 0x05, 0x00}, {0xd4, 0x0d, 0x00}, {0xd5, 0x0c, 0x80, 0xc0}, {0xd6, 0xff, 0, 0, 0, 0}, {0xc7, 0x00, 0x0c}, {0xc7, 0x00, 0x05}, {0xd7, 0xff, 0, 0, 0, 0, 0, 0, 0, 0},
+}
+
 var c17Headers = [][]byte{
 	{0xdd, 0x01, 0x00, 0x00, 0x00}, {0xdd, 0x7f, 0xff, 0xff, 0xff}, {0xdd, 0xff, 0xff, 0xff, 0xff}, {0xdc, 0xff, 0xff},
 	{0xdf, 0x01, 0x00, 0x00, 0x00}, {0xdf, 0x7f, 0xff, 0xff, 0xff}, {0xde, 0xff, 0xff},
@@ -499,7 +511,27 @@ var c17WrapperJSONValues = []string{"null", "[]", "{}", "[null]", `{"x":null,"y"
 var c17WrapperMsgpackValues = [][]byte{{0xc0}, {0x90}, {0x80}, {0xd4, 0x00, 0x00}, {0x91, 0xc0}, {0x82, 0xa1, 'x', 0xc0, 0xa1, 'y', 0xa1, 's'}, {0x81, 0xa1, 'a', 0xa1, 's'}, {0x91, 0x81, 0xa1, 'a', 0xc0}}
 
 func c17JSONWrapper(c *Ctx, draw func(int) int) []byte {
-	return []byte(`{"type":` + c17WrapperTypes[draw(len(c17WrapperTypes))] + `,"value":` + c17WrapperJSONValues[draw(len(c17WrapperJSONValues))] + `}`)
+	ty := c17WrapperTypes[draw(len(c17WrapperTypes))]
+	val := c17WrapperJSONValues[draw(len(c17WrapperJSONValues))]
+	switch draw(12) {
+	case 0: // the value before its type
+		return []byte(`{"value":` + val + `,"type":` + ty + `}`)
+	case 1: // no value
+		return []byte(`{"type":` + ty + `}`)
+	case 2: // no type
+		return []byte(`{"value":` + val + `}`)
+	case 3: // the type twice, differently
+		return []byte(`{"type":"string","type":` + ty + `,"value":` + val + `}`)
+	case 4: // the value twice
+		return []byte(`{"type":` + ty + `,"value":` + val + `,"value":null}`)
+	case 5: // something else besides
+		return []byte(`{"type":` + ty + `,"value":` + val + `,"extra":[1,{"a":null}]}`)
+	case 6: // the type is not a type description
+		return []byte(`{"type":` + []string{"null", "17", `"no-such-type"`, `["list"]`, `["object",{"a":null}]`, `{}`, `["tuple","string"]`}[draw(7)] + `,"value":` + val + `}`)
+	case 7: // nothing at all
+		return []byte(`{}`)
+	}
+	return []byte(`{"type":` + ty + `,"value":` + val + `}`)
 }
 
 func c17MsgpackWrapper(c *Ctx, draw func(int) int) []byte {
@@ -509,7 +541,7 @@ func c17MsgpackWrapper(c *Ctx, draw func(int) int) []byte {
 	return append(out, c17WrapperMsgpackValues[draw(len(c17WrapperMsgpackValues))]...)
 }
 
-var c17FaultNames = []string{"store.flip", "store.overwrite", "store.torn", "store.lost", "store.dup", "store.misdirect", "store.zero", "store.lenfield", "store.token", "store.extbody", "store.header", "store.wrapper", "store.keycopy", "store.extint"}
+var c17FaultNames = []string{"store.flip", "store.overwrite", "store.torn", "store.lost", "store.dup", "store.misdirect", "store.zero", "store.lenfield", "store.token", "store.extbody", "store.header", "store.wrapper", "store.keycopy", "store.extint", "store.leaf"}
 
 var c17LenChoices = []int{0, 1, 15, 16, 31, 32, 255, 256, 65535, 65536, 1 << 20, 1 << 24, 1<<31 - 1, 1<<32 - 1}
 
@@ -689,6 +721,20 @@ func c17ApplyFault(c *Ctx, kind int, data []byte, others [][]byte) []byte {
 			out = append(out, item...)
 			return append(out, data[dst.end:]...)
 		}
+	case 14: // some item (a member, a key) becomes a leaf that is legal MessagePack and awkward for the reader
+		items := mpScan(data)
+		leaf := c17Leaves[c.F(len(c17Leaves))]
+		if len(items) > 0 {
+			it := items[c.F(len(items))]
+			end := it.end
+			if end < it.off+it.hdr || end > n {
+				end = n
+			}
+			out := append([]byte(nil), data[:it.off]...)
+			out = append(out, leaf...)
+			return append(out, data[end:]...)
+		}
+		return append([]byte(nil), leaf...)
 	case 13: // an integer inside a refinement body (a length, a bound) is rewritten, the extension header adjusted
 		var exts []mpItem
 		for _, it := range mpScan(data) {
